@@ -34,6 +34,7 @@ class Explorer:
         self._s2 = None
         self._scope_path = None
         self._decided, self._keep = {}, []
+        self._sel_cache, self._nsel = {}, 0
         self.quick_ms = int(os.environ.get('SX_QUICK_MS', '2000'))
 
     # ---- solver plumbing
@@ -247,6 +248,7 @@ class Explorer:
             else:
                 raise Abort()
         self.decisions.append(d)
+        self._nsel = 0
         c = cond if d else z3.Not(cond)
         self._decided[cid] = d
         self._decided[nid] = not d
@@ -288,6 +290,33 @@ class Explorer:
         sat, m = self._check(z3.Not(cond))
         return not sat
 
+    def decided(self, cond):
+        """True / False when base + pc leave only that side of cond feasible, None when both sides are (no decision is recorded)"""
+        if isinstance(cond, bool):
+            return cond
+        if isinstance(cond, T.SBool):
+            cond = cond.e
+        cond = z3.simplify(cond)
+        if z3.is_true(cond):
+            return True
+        if z3.is_false(cond):
+            return False
+        known = self._decided.get(cond.get_id())
+        if known is not None:
+            return known
+        # paths are explored by re-execution: the same question comes back at the same place of every path sharing this decision prefix
+        key = (tuple(self.decisions), self._nsel)
+        self._nsel += 1
+        if key in self._sel_cache:
+            return self._sel_cache[key]
+        st, mt = self.feasible(cond)
+        sf, mf = self.feasible(z3.Not(cond))
+        if not st and not sf:
+            raise Abort()
+        r = None if (st and sf) else st
+        self._sel_cache[key] = r
+        return r
+
     def current_model(self):
         if self.model is None:
             ok, m = self._check()
@@ -300,6 +329,7 @@ class Explorer:
     def run(self, fn):
         """yield a Path for every feasible execution of fn()"""
         self.worklist = [[]]
+        self._sel_cache = {}
         n = 0
         while self.worklist:
             if n >= self.max_paths:
@@ -307,6 +337,7 @@ class Explorer:
             self.prefix = self.worklist.pop()
             self.decisions, self.pc, self.model = [], [], None
             self._decided, self._keep = {}, []
+            self._nsel = 0
             self.solver.push()
             for d in self.defs_light:
                 self.solver.add(d)
